@@ -656,7 +656,9 @@ def unit_to_bed12_types(U):
                     p.pc, goal, {"b%d.%s" % (i, w): z3.Int("b%d.%s" % (i, w)) for i in range(3) for w in ("start", "end")}, replay=replay)
 
 
-UNITS = [("to_bed12_types", unit_to_bed12_types), ("bounded.switch", unit_bounded_switch), ("len_sequence", unit_len_sequence), ("sequence.filename", unit_sequence_filename), ("bed12", unit_bed12), ("to_bed12", unit_to_bed12), ("bounded.two_levels", unit_bounded_two_levels)]
+from pyvc.harness import dep_unit as _dep_unit
+
+UNITS = [("dep.getitem", _dep_unit("C04", "unit_getitem", "C04", "C18.dep", "db[<id or Feature>] answers with the STORED record of that id (the C04 obligations bed12 relies on when it is given a Feature), discharged in this check as well")), ("to_bed12_types", unit_to_bed12_types), ("bounded.switch", unit_bounded_switch), ("len_sequence", unit_len_sequence), ("sequence.filename", unit_sequence_filename), ("bed12", unit_bed12), ("to_bed12", unit_to_bed12), ("bounded.two_levels", unit_bounded_two_levels)]
 try:
     from standins import C18 as _S
     UNITS = UNITS + list(_S.UNITS)
